@@ -48,3 +48,13 @@ Theorem C06_store_primes_model_kernel : forall l1 maxKB cut maxV start stop v0,
     else SOk (v0 ++ primes_between start stop).
 Proof. exact store_primes_model. Qed.
 Print Assumptions C06_store_primes_model_kernel.
+
+(** ... and with the primality certificate for 18446744073709551557 (Properties_C10): no hypothesis left at all *)
+From PS Require Import Proofs.TopFinalP.
+Theorem C06_store_primes_final : forall l1 maxKB cut maxV start stop v0,
+  16 <= maxKB -> maxKB <= 8192 -> cut_spec cut -> start <= MAX64 -> stop <= MAX64 ->
+  store_primes maxV start stop (cut (sieve_model l1 maxKB start MAX64)) v0 =
+    if (start <=? stop) && (start <=? MAXPRIME64) && (maxV <? stop) then SThrow v0
+    else SOk (v0 ++ primes_between start stop).
+Proof. exact store_primes_final. Qed.
+Print Assumptions C06_store_primes_final.
